@@ -1,3 +1,4 @@
+import Sparrow.Proofs.KernelEquiv
 import Sparrow.Proofs.CollectLemmas
 import Sparrow.Proofs.RealInst
 import Sparrow.Model.Source
@@ -63,3 +64,16 @@ theorem direct_sound_value (r m : ℝ) :
   ring
 
 end Sparrow.Props.C11
+
+namespace Sparrow.Props.C11.Kernels
+open Sparrow Sparrow.Generated.Kernels
+
+/-- `_collect_receiver_energy` as translated = the model's receiver kernel (`np.roll`, D3). -/
+theorem collectReceiverEnergy_eq (P B S : Nat) (E : Nat → Nat → Nat → ℝ) (s0 : Nat) (dist : Nat → ℝ)
+    (c dt : ℝ) (s1 : Nat) (att : Nat → ℝ) (i b t : Nat) (hi : i < P) (hb : b < B) :
+    collectReceiverEnergy P B S E s0 dist c dt s1 att i b t =
+      collectRollF S (fun i => ToBin.ceilNat (dist i / c / dt)) (fun i => Real.exp (-(att b) * dist i))
+        (fun i t => E i b t) i t :=
+  Sparrow.collectReceiverEnergy_eq P B S E s0 dist c dt s1 att i b t hi hb
+
+end Sparrow.Props.C11.Kernels
